@@ -183,7 +183,7 @@ def run_shard(ctx):
   try:
     thorough = ctx.tier == 'thorough'
     # A1: random configurations with random injections
-    n_random = 12000 if thorough else 900
+    n_random = 6000 if thorough else 900
     for _ in range(n_random):
       config, iterations = dag.random_config(ctx.rng, max_units=9 if thorough else 7)
       inject = {}
